@@ -12,7 +12,11 @@ Models: Emboss/Model/Names.lean, StaticAsserts.lean, CppInt.lean (+ Enum.lean fo
 -/
 import Emboss.Lemmas.StaticAsserts
 import Emboss.Lemmas.EnumGen
+import Emboss.Lemmas.Names
 import Emboss.Model.Names
+import Emboss.Model.EnableIfs
+import Emboss.Generated.CppReserved
+import Emboss.Spec.CppKeywords
 namespace Emboss.C07
 open Emboss.CppInt Emboss.StaticAsserts Emboss.Names
 
@@ -131,82 +135,158 @@ theorem C07_choice_counterexample :
 
 example : choiceTypes (min 0 0, max 255 65535) (0, 255) (0, 65535) = (some i32, some i32) := by decide
 
+/-! ## arithmetic and comparison operations -/
+
+/-- **`IntermediateT` exists and is wide enough.**  For an operation node the front end
+accepted — every integer clause (the result, when it is an integer, and each integer operand)
+fits `int64_t` or `uint64_t`, and not one of them needing the signed and another the unsigned
+type — the back end's `_cpp_integer_type_for_range(min(…), max(…))` is a type (never the
+Python `None`, which would be written into the header as the text `None`), and it holds every
+value of every clause, so no operand is truncated by the conversion to `IntermediateT`.
+Covers `+ - *`, the comparisons (which have no integer result clause), `?:`, `$max`. -/
+theorem C07_operation_intermediate_type (c : Int × Int) (cs : List (Int × Int))
+    (hacc : frontAcceptsOp (c :: cs) = true) :
+    ∃ ty, opIntermediate (c :: cs) = some ty ∧
+      ∀ d ∈ c :: cs, ∀ v, d.1 ≤ v → v ≤ d.2 → ty.holds v = true := by
+  obtain ⟨⟨b1, b2⟩, b3, b4, b5⟩ := hullOf_bounds cs c
+  have hexists : ∃ ty, typeForRange (hullOf c cs).1 (hullOf c cs).2 = some ty := by
+    rcases frontAcceptsOp_uniform _ hacc with hi | hu
+    · have h1 : -9223372036854775808 ≤ (hullOf c cs).1 := by
+        apply b4
+        · have := hi c (List.mem_cons_self ..)
+          simp only [fitsI64, Bool.and_eq_true, decide_eq_true_eq] at this; exact this.1
+        · intro d hd
+          have := hi d (List.mem_cons_of_mem _ hd)
+          simp only [fitsI64, Bool.and_eq_true, decide_eq_true_eq] at this; exact this.1
+      have h2 : (hullOf c cs).2 ≤ 9223372036854775807 := by
+        apply b5
+        · have := hi c (List.mem_cons_self ..)
+          simp only [fitsI64, Bool.and_eq_true, decide_eq_true_eq] at this; exact this.2
+        · intro d hd
+          have := hi d (List.mem_cons_of_mem _ hd)
+          simp only [fitsI64, Bool.and_eq_true, decide_eq_true_eq] at this; exact this.2
+      unfold typeForRange
+      split
+      · exact ⟨_, rfl⟩
+      · split
+        · exact ⟨_, rfl⟩
+        · rw [if_pos ⟨by omega, by omega⟩]; exact ⟨_, rfl⟩
+    · have h1 : 0 ≤ (hullOf c cs).1 := by
+        apply b4
+        · have := hu c (List.mem_cons_self ..)
+          simp only [fitsU64, Bool.and_eq_true, decide_eq_true_eq] at this; exact this.1
+        · intro d hd
+          have := hu d (List.mem_cons_of_mem _ hd)
+          simp only [fitsU64, Bool.and_eq_true, decide_eq_true_eq] at this; exact this.1
+      have h2 : (hullOf c cs).2 ≤ 18446744073709551615 := by
+        apply b5
+        · have := hu c (List.mem_cons_self ..)
+          simp only [fitsU64, Bool.and_eq_true, decide_eq_true_eq] at this; exact this.2
+        · intro d hd
+          have := hu d (List.mem_cons_of_mem _ hd)
+          simp only [fitsU64, Bool.and_eq_true, decide_eq_true_eq] at this; exact this.2
+      unfold typeForRange
+      split
+      · exact ⟨_, rfl⟩
+      · split
+        · exact ⟨_, rfl⟩
+        · split
+          · exact ⟨_, rfl⟩
+          · rw [if_pos ⟨by omega, by omega⟩]; exact ⟨_, rfl⟩
+  obtain ⟨ty, hty⟩ := hexists
+  refine ⟨ty, hty, ?_⟩
+  intro d hd v hv1 hv2
+  apply typeForRange_holds _ _ ty hty v
+  rcases List.mem_cons.mp hd with rfl | hd'
+  · omega
+  · have := b3 d hd'; omega
+
+/-- Non-vacuity: `big < 5` with `big : UInt:64`, and `a - b` on two `Int:32`s. -/
+example : frontAcceptsOp [(0, 18446744073709551615), (5, 5)] = true ∧
+    opIntermediate [(0, 18446744073709551615), (5, 5)] = some u64 ∧
+    frontAcceptsOp [(-4294967295, 4294967295), (-2147483648, 2147483647), (-2147483648, 2147483647)] = true ∧
+    opIntermediate [(-4294967295, 4294967295), (-2147483648, 2147483647), (-2147483648, 2147483647)] = some i64 := by
+  decide
+
+/-- Why the front end's mixed-signedness check is needed (and must see *comparisons* too,
+whose result is not an integer): `big == small` with `big : UInt:64`, `small : Int:8` — each
+operand fits a 64-bit type, the node is rejected, and without the rejection there is no
+intermediate type (the header would contain `Equal</**/None, …>`). -/
+theorem C07_mixed_signedness_counterexample :
+    [(0, 18446744073709551615), ((-128 : Int), (127 : Int))].all (fun c => fitsU64 c || fitsI64 c) = true ∧
+    frontAcceptsOp [(0, 18446744073709551615), (-128, 127)] = false ∧
+    opIntermediate [(0, 18446744073709551615), (-128, 127)] = none := by decide
+
 /-! ## names -/
 
 /-
 Full statement (false on the real code): within one C++ scope, distinct Emboss entities get
 distinct identifiers.
 
-Proved fragment (`EmbossReserved…` helper types of one structure): under the hypothesis
-that the field names stay pairwise distinct after `snake_to_camel`.  The other clash classes
-(field vs. `backing_` / `<param>_` / `has_<field>`, nested enum vs. view method, type vs.
-`<Struct>View`…) are decided by the executable `Names.clashes`, tied to g++ by the
-correspondence; their witnesses are in `C07_names_counterexample`. -/
-theorem C07_names_distinct_partial (fs : List Field)
-    (hsnake : ∀ f ∈ fs, ∀ c cs, f.name = c :: cs → c ≠ '$')
+Proved for the `EmbossReserved…` helper types of one structure (below): since `fix: dca9b37`
+the back end rejects a structure two of whose fields would get the same helper class name, so
+the former hypothesis "names stay distinct after `snake_to_camel`" is a consequence of
+acceptance.  The other clash classes (field vs. `backing_` / `<param>_` / `has_<field>`, nested
+enum vs. view method, type vs. `<Struct>View`…) are still open findings; they are decided by
+the executable `Names.clashes`, tied to g++ by the correspondence, and characterised by
+`C07_class_scope_clean_partial`; their witnesses are in `C07_names_counterexample`. -/
+/-- **Accepted ⇒ the helper types of a structure have pairwise distinct names**: the nested
+view classes of the non-alias virtual fields (`EmbossReservedVirtual<Camel>View`,
+`EmbossReservedDollarVirtual<Name>View` for `$size_in_bytes` & co.) and the validators of the
+fields with `[requires]` (`EmbossReservedValidatorFor<Camel>`).  Hypotheses: the back end's
+check passed (`fieldNamesDistinct`, mirror of `_verify_generated_field_names_are_distinct`),
+field names are distinct (front end), `$`-fields are virtual. -/
+theorem C07_names_distinct (fs : List Field)
+    (hnames : (fs.map (·.name)).Nodup)
+    (hdv : ∀ f ∈ fs, isDollar f.name = true → f.validator = false)
+    (hacc : fieldNamesDistinct fs = true) :
+    (reservedNames fs).Nodup :=
+  reservedNames_nodup fs hnames hdv hacc
+
+/-- **The check rejects nothing but genuine collisions**: fields whose names stay pairwise
+distinct after `snake_to_camel` pass it. -/
+theorem C07_rejects_only_camel_collisions (fs : List Field)
     (hcamel : fs.Pairwise (fun a b => Emboss.Enum.snakeToCamel a.name ≠ Emboss.Enum.snakeToCamel b.name)) :
-    (reservedNames fs).Nodup := by
-  have hv : ∀ f ∈ fs, virtualViewName f.name =
-      some (s "EmbossReservedVirtual" ++ Emboss.Enum.snakeToCamel f.name ++ s "View") := by
-    intro f hf
-    unfold virtualViewName
-    split
-    · rename_i c cs heq
-      exact absurd rfl (hsnake f hf _ _ heq)
-    · rfl
-  unfold reservedNames List.Nodup
-  rw [List.pairwise_append]
-  refine ⟨?_, ?_, ?_⟩
-  · -- virtual view classes among themselves
-    rw [List.pairwise_filterMap]
-    refine (List.Pairwise.and_mem.mp hcamel).imp ?_
-    rintro a b ⟨ha, hb, hab⟩ x hx y hy
-    by_cases hoa : a.ownView = true
-    · by_cases hob : b.ownView = true
-      · simp only [hoa, hob, if_true] at hx hy
-        rw [hv a ha] at hx
-        rw [hv b hb] at hy
-        cases hx; cases hy
-        intro h
-        have h1 := List.append_cancel_right h
-        exact hab (List.append_cancel_left h1)
-      · simp [hob] at hy
-    · simp [hoa] at hx
-  · -- validators among themselves
+    fieldNamesDistinct fs = true := by
+  simp only [fieldNamesDistinct, Bool.and_eq_true, Emboss.Enum.distinctLoop_iff, List.not_mem_nil,
+    not_false_eq_true, implies_true, and_true]
+  constructor
+  · unfold checkedVirtualNames List.Nodup
     rw [List.pairwise_map]
-    have hp : fs.Pairwise (fun a b => validatorName a.name ≠ validatorName b.name) := by
-      refine hcamel.imp ?_
-      intro a b hab h
-      exact hab (List.append_cancel_left h)
-    exact hp.sublist List.filter_sublist
-  · -- a view-class name is never a validator name
-    intro x hx y hy h
-    obtain ⟨f, hf, hfx⟩ := List.mem_filterMap.mp hx
-    obtain ⟨g, hg, rfl⟩ := List.mem_map.mp hy
-    by_cases hof : f.ownView = true
-    · simp only [hof, if_true] at hfx
-      rw [hv f hf] at hfx
-      cases hfx
-      simp [s, validatorName] at h
-    · simp [hof] at hfx
+    refine List.Pairwise.sublist List.filter_sublist (hcamel.imp ?_)
+    intro a b hab h
+    exact hab (List.append_cancel_left (List.append_cancel_right h))
+  · unfold checkedValidatorNames List.Nodup
+    rw [List.pairwise_map]
+    refine List.Pairwise.sublist List.filter_sublist (hcamel.imp ?_)
+    intro a b hab h
+    exact hab (List.append_cancel_left h)
 
 def fPlain (n : String) : Field := { name := s n }
 def fVirt (n : String) : Field := { name := s n, ownView := true }
 def fReq (n : String) : Field := { name := s n, validator := true }
 def fConst (n : String) : Field := { name := s n, ownView := true, constant := true }
 
-/-- Counterexamples to the full statement, one per clash class (all replayed on the real
-compiler + g++ by `./check C07`):
-1. `let x_1 = …` and `let x1 = …` → two nested classes `EmbossReservedVirtualX1View` (F15);
-2. `[requires]` on `x_1` and `x1` → two `EmbossReservedValidatorForX1`;
+/-- The former counterexamples 1–2 (findings `virtual-field-names-equal-after-camel-conversion`
+(F15), `validator-names-equal-after-camel-conversion`; fixed by dca9b37): the scopes would
+clash, and the back end now rejects the structure.  Pinned in `corpus/C07/*_must_be_rejected.emb`. -/
+theorem C07_camel_collisions_rejected :
+    clean (classScope { name := s "Foo", fields := [fPlain "y", fVirt "x_1", fVirt "x1"] }) = false ∧
+    fieldNamesDistinct [fPlain "y", fVirt "x_1", fVirt "x1"] = false ∧
+    clean (namespaceScope { owner := some { name := s "Foo", fields := [fReq "x_1", fReq "x1"] } }) = false ∧
+    fieldNamesDistinct [fReq "x_1", fReq "x1"] = false ∧
+    -- not flagged: a `[requires]` field next to a virtual field and an alias with the same CamelCase form
+    fieldNamesDistinct [fReq "x_1", fVirt "x1", fPlain "x__1"] = true := by
+  decide
+
+/-- Counterexamples to the full statement, one per clash class still open (all replayed on
+the real compiler + g++ by `./check C07`):
 3. field `backing_`; 4. parameter `x` and field `x_`; 5. fields `x` and `has_x`;
 6. nested enum `Ok`; 7. struct `Bar` and enum `BarView`; 8. enum `EnumTraits`;
 9. constant-size struct with nested enum `MaxSizeInBytes`;
 10. a structure named `Storage` (or `ValueType`): the unqualified `Storage::MaxSizeInBytes()` in
 the constant's `Read()` finds the template parameter instead of the namespace. -/
 theorem C07_names_counterexample :
-    clean (classScope { name := s "Foo", fields := [fPlain "y", fVirt "x_1", fVirt "x1"] }) = false ∧
-    clean (namespaceScope { owner := some { name := s "Foo", fields := [fReq "x_1", fReq "x1"] } }) = false ∧
     clean (classScope { name := s "Foo", fields := [fPlain "backing_"] }) = false ∧
     clean (classScope { name := s "Foo", params := [s "x"], fields := [fPlain "x_"] }) = false ∧
     clean (classScope { name := s "Foo", fields := [fPlain "x", fPlain "has_x"] }) = false ∧
@@ -223,6 +303,90 @@ example :
     clean (classScope { name := s "Foo", params := [s "n"], fields := [fPlain "a", fVirt "b_1", fConst "$size_in_bytes"], nestedEnums := [s "Kind"] }) = true ∧
     clean (namespaceScope { structs := [s "Foo", s "Bar"], enums := [s "Kind", s "Other"] }) = true ∧
     [fPlain "a", fVirt "b_1"].Pairwise
-      (fun a b => Emboss.Enum.snakeToCamel a.name ≠ Emboss.Enum.snakeToCamel b.name) := by decide
+      (fun a b => Emboss.Enum.snakeToCamel a.name ≠ Emboss.Enum.snakeToCamel b.name) ∧
+    fieldNamesDistinct [fPlain "a", fVirt "b_1", fConst "$size_in_bytes", fReq "c"] = true ∧
+    ([fPlain "a", fVirt "b_1", fConst "$size_in_bytes", fReq "c"].map (·.name)).Nodup := by decide
+
+/-! ## `(cpp) namespace` -/
+
+/-- **An accepted `(cpp) namespace` value yields well-formed `namespace X {` lines**: the
+components the back end emits (`_get_namespace_components`, the same scanner that validates the
+text — whitespace around `::` and a leading `::` play no role) are at least one, each a C++
+identifier, none of them a reserved word. -/
+theorem C07_namespace_components (rw : List String) (text : List Char) (cs : List Name)
+    (h : verifyNamespace rw text = .ok cs) :
+    nsParse text = some cs ∧ cs ≠ [] ∧
+    (∀ c ∈ cs, IsIdent c) ∧ (∀ c ∈ cs, String.ofList c ∉ rw) := by
+  unfold verifyNamespace at h
+  cases hp : nsParse text with
+  | none =>
+    simp only [hp] at h
+    split at h
+    · cases h
+    · split at h <;> cases h
+  | some ds =>
+    simp only [hp] at h
+    split at h
+    · rename_i hf
+      cases h
+      obtain ⟨h1, h2⟩ := nsScan_sound text .lead [] cs hp (by simp) trivial
+      refine ⟨rfl, h1, h2, ?_⟩
+      intro c hc hm
+      have : c ∈ cs.filter (fun c => rw.contains (String.ofList c)) :=
+        List.mem_filter.mpr ⟨hc, by simp [hm]⟩
+      rw [hf] at this
+      cases this
+    · cases h
+
+/-- **Every C++17 keyword and alternative token is refused as a namespace component** — over the
+back end's own table, regenerated from `_CPP_RESERVED_WORDS` on every run. -/
+theorem C07_namespace_keywords_reserved :
+    Emboss.Spec.cpp17Keywords.all (fun k => Emboss.Generated.cppReservedWords.contains k) = true := by
+  decide +kernel
+
+/-- Non-vacuity and the boundary cases (tests by evaluation): whitespace and a leading `::` are
+tolerated; a keyword is refused however it is padded; `::` alone, an empty text, `a::`, `a b`
+and `a:::b` are not namespaces. -/
+example :
+    verifyNamespace ["protected", "new"] " ::a1 :: b_2\t::c ".toList = .ok [s "a1", s "b_2", s "c"] ∧
+    verifyNamespace ["protected", "new"] " new".toList = .reserved [s "new"] ∧
+    verifyNamespace ["protected", "new"] "::".toList = .global ∧
+    verifyNamespace ["protected", "new"] "  ".toList = .empty ∧
+    verifyNamespace ["protected", "new"] "a::".toList = .invalid ∧
+    verifyNamespace ["protected", "new"] "a b".toList = .invalid ∧
+    verifyNamespace ["protected", "new"] "a:::b".toList = .invalid ∧
+    verifyNamespace ["protected", "new"] "Protected".toList = .ok [s "Protected"] := by
+  decide +kernel
+
+/-- … and against the real table: the seeded-change witness. -/
+example : verifyNamespace Emboss.Generated.cppReservedWords "acme :: protected :: wire".toList =
+    .reserved [s "protected"] := by decide +kernel
+
+/-! ## `enable_if` preconditions -/
+
+/-- **Every `enable_if` of the runtime and of the code templates is accounted for** (table
+regenerated on every run): caller-argument overload rules, the constructor guard, and the
+ones over generated template arguments, each of which has its clause below. -/
+theorem C07_enable_ifs_classified :
+    Emboss.EnableIfs.allClassified = true ∧ Emboss.EnableIfs.allTagsProved = true := by
+  decide +kernel
+
+/-- **The generated `GenericArrayView` arguments enable exactly the members the templates use**:
+`kAddressableUnitSize` is 8 for an array in a `struct` and 1 in a `bits`, so exactly one of the
+two `SizeOfBuffer()` overloads (which `ElementCount()`/`Ok()` call unconditionally) exists, and
+it is `SizeInBytes()` for a `struct`, `SizeInBits()` for a `bits`; `ToString()` exists only for
+byte arrays of one-byte elements; any other unit would leave no overload at all. -/
+theorem C07_enable_if_array_members (isBits : Bool) (elementSize : Nat) :
+    Emboss.EnableIfs.sizeOverloads (Emboss.EnableIfs.arrayUnit isBits) = (!isBits, isBits) ∧
+    (Emboss.EnableIfs.hasToString (Emboss.EnableIfs.arrayUnit isBits) elementSize = true ↔
+      isBits = false ∧ elementSize = 1) ∧
+    (∀ u, u ≠ 1 → u ≠ 8 → Emboss.EnableIfs.sizeOverloads u = (false, false)) := by
+  refine ⟨by cases isBits <;> rfl, ?_, ?_⟩
+  · cases isBits <;> simp [Emboss.EnableIfs.hasToString, Emboss.EnableIfs.arrayUnit]
+  · intro u h1 h8
+    simp [Emboss.EnableIfs.sizeOverloads, h1, h8]
+
+example : Emboss.EnableIfs.sizeOverloads (Emboss.EnableIfs.arrayUnit true) = (false, true) ∧
+    Emboss.EnableIfs.hasToString (Emboss.EnableIfs.arrayUnit false) 1 = true := by decide
 
 end Emboss.C07
